@@ -132,9 +132,40 @@ def run_system(desc):
             require(len(files) == len(arrays), "csv-stock-file-count", f"with_in_and_out={wio}: {len(files)} files for {len(arrays)} quantities")
             match_files(sdir, files, arrays, "stock", 0)
     require(snap_system(mfa) == before, "export-altered-system", "")
+    if desc.get("again"):
+        # scenario loop: the same system is changed in place and exported again - the current values are exported
+        for i, f in enumerate(fl):
+            mfa.flows[f["name"]].values[...] = mfa.flows[f["name"]].values * (i + 2) + 1.0
+        for i, s_ in enumerate(stx):
+            mfa.stocks[s_["name"]].stock.values[...] = mfa.stocks[s_["name"]].stock.values * 0.5 - i
+        d2 = convert_to_dict(mfa)
+        dp2 = convert_to_dict(mfa, type="pandas")
+        for f in fl:
+            n = f["name"]
+            require(same_array(d2["flows"][n], mfa.flows[n].values), "re-export-stale-values", f"flow {n} (numpy form)")
+            back = fd.FlodymArray.from_df(dims=mfa.flows[n].dims, df=dp2["flows"][n])
+            require(same_array(back.values, mfa.flows[n].values), "re-export-stale-values", f"flow {n} (pandas form)")
+        for s_ in stx:
+            n = s_["name"]
+            require(same_array(d2["stocks"][n], mfa.stocks[n].stock.values), "re-export-stale-values", f"stock {n} (numpy form)")
+        with tempfile.TemporaryDirectory(prefix="verif_c19_") as tmp2:
+            export_mfa_flows_to_csv(mfa, tmp2)
+            match_files(tmp2, sorted(os.listdir(tmp2)), {f["name"]: mfa.flows[f["name"]] for f in fl}, "flow", 0)
     dimsets = {tuple(sorted(f["letters"])) for f in fl}
     funky = any(conservative_key(f["name"]) != f["name"] for f in fl)
     return {"nontrivial": len({len(x) for x in dimsets}) >= 2 or funky, "classes": [f"flows:{min(len(fl), 4)}", f"stocks:{len(stx)}"] + (["names-need-sanitising"] if funky else [])}
+
+
+def text_dims(dims):
+    """CSV is text: a dimension that mixes label types (untyped, e.g. ['a0', 101]) comes back with all labels as
+    text, so such a dimension is read back through its str()-ed twin; all others are read back as they are."""
+    out = []
+    for d in dims:
+        if d.dtype is None and len({type(i) for i in d.items}) > 1:
+            out.append(fd.Dimension(letter=d.letter, name=d.name, items=[str(i) for i in d.items], dtype=str))
+        else:
+            out.append(d)
+    return fd.DimensionSet(dim_list=out)
 
 
 def match_files(directory, files, arrays, what, ulp):
@@ -145,7 +176,7 @@ def match_files(directory, files, arrays, what, ulp):
         cands = []
         for key, arr in arrays.items():
             try:
-                back = fd.FlodymArray.from_df(dims=arr.dims, df=df)
+                back = fd.FlodymArray.from_df(dims=text_dims(arr.dims), df=df)
             except Exception:
                 continue
             if same_array(back.values, arr.values, ulp):
@@ -159,7 +190,7 @@ def match_files(directory, files, arrays, what, ulp):
 
 @st.composite
 def system_cases(draw):
-    U = draw(gen.universes(min_dims=2, max_dims=4, max_len=3, with_time=True, kinds=("str", "int", "ustr", "uint")))
+    U = draw(gen.universes(min_dims=2, max_dims=4, max_len=3, with_time=True, kinds=("str", "int", "ustr", "uint", "umixed")))
     U["dims"][0]["items"] = [2000 + i for i in range(max(2, len(U["dims"][0]["items"])))]
     U["dims"][0]["dtype"] = "int"
     allL = gen.uletters(U)
@@ -200,7 +231,7 @@ def system_cases(draw):
             continue
         used_s.add(k_)
         stocks.append({"name": name, "proc": draw(st.sampled_from([None] + list(range(nproc)))), "letters": ["t"] + draw(gen.ordered_subtuple(allL[1:]))})
-    return {"universe": U, "procs": procs, "flows": flows, "stocks": stocks}
+    return {"universe": U, "procs": procs, "flows": flows, "stocks": stocks, "again": draw(st.integers(0, 2)) == 0}
 
 
 class System(Facet):
